@@ -77,6 +77,41 @@ Print Assumptions C05_integers.
 Example C05_integers_nonvacuous : (Nat.leb 25 (List.length int_rows))%bool = true.
 Proof. vm_compute. reflexivity. Qed.
 
+(* ---- finite float values on the decimal types ---- *)
+Definition dec_row (row:string * string * option rcls * option xr) : bool :=
+  match row with (_, _, Some r, Some x) => decimal_xr x | _ => false end.
+Definition dec_rows := Eval vm_compute in filter dec_row rows.
+Lemma dec_rows_shape : forallb (fun row => match row with (_, _, Some r, Some x) => is_dec_r r && decimal_xr x | _ => false end) dec_rows = true.
+Proof. vm_compute. reflexivity. Qed.
+(* on every decimal type the set of rationals the library accepts is the set the schema allows *)
+Lemma dec_rows_same_set : Forall (fun row => match row with
+   | (_, _, Some (R _ _ _ _ _ _ _ has_restr restr chain), Some x) => forall q, float_accepts has_restr restr chain q = xq_ok x q
+   | _ => True end) dec_rows.
+Proof.
+  unfold dec_rows. repeat constructor; intros q; cbv [float_accepts xq_ok qbounds_ok qfacet qsetter forallb fst snd]; simpl;
+    repeat match goal with |- context [Qle_bool ?a ?b] => destruct (Qle_bool a b) end; reflexivity.
+Qed.
+(* for every decimal schema type and EVERY finite float whose repr is a plain decimal numeral (no exponent) of the same value:
+   the class accepts it iff the text it emits is valid for the type.  (repr with an exponent, nan and inf: RC17, refuted below.) *)
+Theorem C05_decimals : forall t c r x, In (t, c, Some r, Some x) dec_rows -> forall q rp q',
+  nows rp = true -> parse_decimal rp = Some q' -> q' == q ->
+  (fst (run r (VFloat FPlain q rp)) = Ok <-> xrun x (render (VFloat FPlain q rp)) = true).
+Proof.
+  intros t c r x I q rp q' NW P E.
+  pose proof (proj1 (forallb_forall _ _) dec_rows_shape _ I) as Sh. cbv beta iota in Sh. apply andb_true_iff in Sh as [S1 S2].
+  pose proof (proj1 (Forall_forall _ _) dec_rows_same_set _ I) as Same. cbv beta iota in Same.
+  pose proof (float_r_spec r S1) as Spec. destruct r as [ty fo pe me pa pr su hr re ch]. simpl render.
+  rewrite (xrun_plain_decimal x rp q' S2 NW P). rewrite (xq_ok_compat x q' q E). rewrite <- Same. apply Spec. reflexivity.
+Qed.
+Print Assumptions C05_decimals.
+Example C05_decimals_nonvacuous : (Nat.leb 8 (List.length dec_rows))%bool = true
+  /\ nows (cp "12.5") = true /\ parse_decimal (cp "12.5") = Some (125 # 10) /\ (125 # 10) == (25 # 2)
+  /\ lib_check lib_st "XSDSimpleTypeTenths" (VFloat FPlain (25 # 2) (cp "12.5")) = Ok.
+Proof. vm_compute. repeat split; reflexivity. Qed.
+(* the same classes also take ints: C05_integers covers them (int_rows contains every decimal row) *)
+Example C05_decimal_rows_are_int_rows : forallb (fun row => existsb (fun r2 => String.eqb (fst (fst (fst row))) (fst (fst (fst r2)))) int_rows) dec_rows = true.
+Proof. vm_compute. reflexivity. Qed.
+
 (* ---- patterns: the library's translated pattern is, as an AST, the schema's pattern ---- *)
 Definition lib_pattern (r:rcls) : option cre := match r with R _ _ _ _ p _ _ _ _ _ => p end.
 Definition pat_row_ok (row:string * string * option rcls * option xr) : bool :=
